@@ -59,6 +59,7 @@ class Elab:
         self.unsupported = None
         self.uses_random = False
         self.has_lines = False
+        self.line_terms = {}
 
     # -- helpers -------------------------------------------------------------------------
     def tag_index(self, tag):
@@ -309,9 +310,11 @@ class Elab:
                                                                        self.line_models(sc, fault)) for sc in f.get("sections", [])])
         layout = "{ly_n=%s; ly_models=%s; ly_default=%s; ly_sections=%s}" % (
             natlit(len(f["coordinates"])), self.line_models(f, fault), mlist([self.line_segment(sg, fault) for sg in f["segments"]]), secs)
-        return "line_to_feature n g (line_of_layout %s %s %s %s %s %s %s)" % (
+        lt = "(line_of_layout %s %s %s %s %s %s %s)" % (
             "true" if fault else "false", mlist([mpt(c) for c in self.coords(f["coordinates"])]), mpt((float(f["dip point"][0]), float(f["dip point"][1]))),
             ml(f.get("min depth", 0.0)), ml(f.get("max depth", DMAX)), layout, ml(float(ti)))
+        self.line_terms[f.get("name", str(idx))] = lt
+        return "line_to_feature n g " + lt
 
     def feature(self, f, idx):
         if f["model"] in ("continental plate", "oceanic plate", "mantle layer"):
@@ -780,7 +783,7 @@ class Gen:
                 s["angle"] = [ang, a2]
                 ang = a2
             if kind != "fault" and r.random() < 0.3:
-                s["top truncation"] = [self.num(-2e4, 2e4, 0)]
+                s["top truncation"] = [self.num(-2e4, 2e4, 0)] if r.random() < 0.5 else [self.num(-2e4, 2e4, 0), self.num(0, 6e4, 0)]
             segs.append(s)
         return segs
 
